@@ -3,6 +3,9 @@ import SpVerif.Model.Ack
 import SpVerif.Model.Prompt
 import SpVerif.Model.KeepAlive
 import SpVerif.Model.Nak
+import SpVerif.Model.Eof
+import SpVerif.Model.Finished
+import SpVerif.Model.Metadata
 /-!
 # Model of `spacepackets/cfdp/pdu/helper.py` (`PduFactory`, `PduHolder`)
 
@@ -25,9 +28,6 @@ does not check it; for every directive class the constant `FILE_DIRECTIVE`) and 
 `directive_type` property (a constant for ACK, NAK, Keep Alive, Finished, Metadata; the *stored*
 directive code for Prompt and EOF, whose decoders do not check it either).
 
-STAGE 1: the EOF, Finished and Metadata decoders have no model yet; `decoderOf` has no entry for
-them and `fromRaw` yields the model-only error `fuel` for their directive codes (no theorem and no
-correspondence case relies on that value; the entry disappears when the three models are merged).
 -/
 namespace SpVerif.Factory
 open SpVerif SpVerif.CfdpHeader SpVerif.FileDirective
@@ -72,6 +72,9 @@ inductive AnyPdu
   | nak (x : Nak.Nak)
   | prompt (x : Prompt.Prompt)
   | keepAlive (x : KeepAlive.KeepAlive)
+  | eof (x : Eof.Eof)
+  | finished (x : Finished.Finished)
+  | metadata (x : Metadata.Metadata)
 deriving DecidableEq, Repr
 
 /-- what `PduHolder` / the factory's callers observe of a PDU object through `AbstractPduBase` /
@@ -94,25 +97,34 @@ def AnyPdu.view : AnyPdu → View
   | .nak x => ⟨.nak, FILE_DIRECTIVE, .ok DIR_NAK, x.packetLen, x.pack⟩
   | .prompt x => ⟨.prompt, FILE_DIRECTIVE, .ok x.fd.code, x.packetLen, x.pack⟩
   | .keepAlive x => ⟨.keepAlive, FILE_DIRECTIVE, .ok DIR_KEEP_ALIVE, x.packetLen, x.pack⟩
+  | .eof x => ⟨.eof, FILE_DIRECTIVE, .ok x.fd.code, x.packetLen, x.pack⟩
+  | .finished x => ⟨.finished, FILE_DIRECTIVE, .ok DIR_FINISHED, x.packetLen, x.pack⟩
+  | .metadata x => ⟨.metadata, FILE_DIRECTIVE, .ok DIR_METADATA, x.packetLen, x.pack⟩
 
 /-- `==` between two objects of the same class (objects of different classes are not compared by
-    the property; the model says `false`) -/
-def AnyPdu.beq : AnyPdu → AnyPdu → Bool
-  | .fileData a, .fileData b => a.beq b
-  | .ack a, .ack b => a.beq b
-  | .nak a, .nak b => a.beq b
-  | .prompt a, .prompt b => a.beq b
-  | .keepAlive a, .keepAlive b => a.beq b
-  | _, _ => false
+    the property; the model says `false`). EOF / Finished / Metadata compare TLVs, which can raise
+    `ValueError` (an entity ID of a width `UnsignedByteField` does not support). -/
+def AnyPdu.beq : AnyPdu → AnyPdu → Py Bool
+  | .fileData a, .fileData b => pure (a.beq b)
+  | .ack a, .ack b => pure (a.beq b)
+  | .nak a, .nak b => pure (a.beq b)
+  | .prompt a, .prompt b => pure (a.beq b)
+  | .keepAlive a, .keepAlive b => pure (a.beq b)
+  | .eof a, .eof b => a.beq b
+  | .finished a, .finished b => a.beq b
+  | .metadata a, .metadata b => a.beq b
+  | _, _ => pure false
 
-/-- the class whose `unpack` the factory calls for a kind (stage 1: three kinds not modelled yet) -/
-def decoderOf : Kind → Option (Bytes → Py AnyPdu)
-  | .fileData => some fun d => .fileData <$> FileData.Pdu.unpack d
-  | .ack => some fun d => .ack <$> Ack.Ack.unpack d
-  | .nak => some fun d => .nak <$> Nak.Nak.unpack d
-  | .prompt => some fun d => .prompt <$> Prompt.Prompt.unpack d
-  | .keepAlive => some fun d => .keepAlive <$> KeepAlive.KeepAlive.unpack d
-  | .eof | .finished | .metadata => none
+/-- the class whose `unpack` the factory calls for a kind -/
+def decoderOf : Kind → Bytes → Py AnyPdu
+  | .fileData, d => .fileData <$> FileData.Pdu.unpack d
+  | .ack, d => .ack <$> Ack.Ack.unpack d
+  | .nak, d => .nak <$> Nak.Nak.unpack d
+  | .prompt, d => .prompt <$> Prompt.Prompt.unpack d
+  | .keepAlive, d => .keepAlive <$> KeepAlive.KeepAlive.unpack d
+  | .eof, d => .eof <$> Eof.Eof.unpack d
+  | .finished, d => .finished <$> Finished.Finished.unpack d
+  | .metadata, d => .metadata <$> Metadata.Metadata.unpack d
 
 def AnyPdu.kind (p : AnyPdu) : Kind := p.view.kind
 def AnyPdu.pduType (p : AnyPdu) : Nat := p.view.pduType
@@ -150,11 +162,8 @@ def pduDirectiveType (d : Bytes) : Py (Option Nat) := do
 
 /-! ## `PduFactory.from_raw` -/
 
-/-- run the decoder of kind `k` (stage 1: `fuel` marks "kind not modelled yet") -/
-def decodeAs (k : Kind) (d : Bytes) : Py (Option AnyPdu) :=
-  match decoderOf k with
-  | some f => some <$> f d
-  | none => .error .fuel
+/-- run the decoder of kind `k`; the factory hands on what it returns -/
+def decodeAs (k : Kind) (d : Bytes) : Py (Option AnyPdu) := some <$> decoderOf k d
 
 /-- the `if directive == … elif …` chain (EOF, Metadata, Finished, ACK, NAK, Keep Alive, Prompt);
     anything else — `None` or `DirectiveType.NONE` — falls through to `return None` -/
